@@ -259,11 +259,13 @@ chk("C09", "model_checking",
 # additions of later rounds (appended to the text of the level claimed)
 EXTRA = {
  "C01": "The flag catalogue holds one keyword in three spellings decoded in one process (a keyword is delivered as written, whatever was decoded before); "
-        "string catalogue values are followed by sentinels so that a decoder reading past its value is seen.",
+        "string catalogue values are followed by sentinels so that a decoder reading past its value is seen, and after every representation the same decoder "
+        "is asked for the tokens that follow (a decoder left unusable is reported as poisoned).",
  "C03": "The catalogue includes SEARCH results of 2500 and 1000+1501 numbers, LIST data crossed with the (reference, pattern) the command was issued with, "
         "and literal-carrying data in every position.",
  "C04": "Sessions with their own SASL mechanisms are a start configuration; unit AUTH-FINAL (a mechanism that ends with data for the client) must consume the "
-        "client's answer; a server that stops answering after an authentication it accepted is reported as out-of-step.",
+        "client's answer; a server that stops answering after an authentication it accepted is reported as out-of-step. Units APPEND-fail / APPEND-panic: a backend "
+        "that refuses or panics before it has read the literal it was handed (the octets still on the wire are message data).",
  "C05": "SessionSASL backends (PLAIN, XTEST) are a configuration; AUTHENTICATE with its credentials on the command line or after the continuation request, "
         "accepted, rejected or cancelled, is an action; Authenticate counts as a credential-bearing backend call. Quick replays the transitions of the 32 "
         "core configurations, thorough all of them.",
@@ -279,22 +281,29 @@ EXTRA = {
         "before the caller's Close), judged by fault = stall /\\ inside => self. Scripts: mail, auth, idlepipe, unsol, stream (incl. a caller that takes its time "
         "between calls), conc (2 and 3 goroutines), ext (extension commands).",
  "C13": "The stress driver also issues LOGIN answered without CAPABILITY code (the client's internal CAPABILITY command competes with the other goroutines) and "
-        "APPEND; the hook log of a round is taken at quiescence.",
+        "APPEND; it selects, expunges and gets unilateral EXISTS / EXPUNGE / FLAGS while other goroutines read the snapshots Client.Mailbox() hands out; "
+        "the hook log of a round is taken at quiescence.",
  "C14": "IdleNotify.tla specifies the wake-up protocol between a command holding the mailbox lock and an idling session (bounded channel, non-blocking send; the "
         "blocking variant is the vacuity guard) and is replayed for every (client behaviour x burst class) on the real server; its safety part (no stuck "
         "state, no lost wake-up) is also proved for every channel capacity and burst size by an inductive invariant discharged with Apalache "
         "(IdleNotifyInd.tla: base, step, implication, two non-vacuity guards). A stress stall explained by a "
         "logged server panic is reported as command-never-completes/server-panic.",
- "C15": "Every flavour (imapnum.Set, SeqSet, UIDSet; value, pointer) also starts from an empty literal and from make(T, 0).",
+ "C15": "Every flavour (imapnum.Set, SeqSet, UIDSet; value, pointer) also starts from an empty literal and from make(T, 0); one random text in ten is a long "
+        "list (28-51 elements, unsorted, with repetitions).",
  "C16": "Every encode vector also goes through the real call sites (imapwire.Encoder.Mailbox -> wire text -> Decoder.ExpectMailbox).",
- "C17": "Sessions with their own SASL mechanisms are among the configurations; AUTHENTICATE-X lines in front of and behind the STARTTLS line.",
+ "C17": "Sessions with their own SASL mechanisms are among the configurations; AUTHENTICATE-X lines in front of and behind the STARTTLS line; on the client side "
+        "capabilities announced in plaintext between the STARTTLS command and its OK are pre-lines (ClientTrustsOnlyTLS).",
  "C18": "Dimensions stale (capabilities invalidated by LOGIN and not yet re-announced advertise nothing), unauth (UNAUTHENTICATE undoes every ENABLE) and saslir "
         "(initial response on the command line only with SASL-IR or IMAP4rev2); APPEND written in split writes.",
  "C19": "Operands are built in five time zones with clock times on both sides of midnight (date bounds compare by calendar date); '$' (saved search result) is a UID "
         "set value that must survive And.",
  "C20": "Random vectors include spellings of 'inbox' as first hierarchy component of name and pattern (ordinary characters to the matcher).",
- "C12": "Client.tla covers 30 command kinds (incl. SORT, THREAD, quota, metadata, NAMESPACE, ENABLE, MOVE, APPEND with synchronising literal, IDLE) and is instantiated "
-        "eight times through Kinds/Greetings; the generator's view carries the completions witnessed per pending command, and the pipe instance enumerates every "
+ "C11": "Bases include the short form of an encapsulated message (message/rfc822 with the basic fields only), alone and inside a multipart; every accessor of "
+        "every delivered value is called inside recover.",
+ "C07": "The replay stops once 2000 mismatches have been recorded (behaviours that wait for a missing response each wait 2 s).",
+ "C12": "Client.tla covers 37 command kinds (incl. SORT, THREAD, quota, metadata, NAMESPACE, ENABLE, MOVE, APPEND with synchronising literal, IDLE, AUTHENTICATE with "
+        "its continuation request, DELETE / RENAME / SUBSCRIBE / UNSUBSCRIBE / SETQUOTA / SETMETADATA, LIST with a reference) and is instantiated "
+        "nine times through Kinds/Greetings; the generator's view carries the completions witnessed per pending command, and the pipe instance enumerates every "
         "behaviour of a small pipeline alphabet to depth 6/7.",
 }
 for _k, _v in EXTRA.items():
